@@ -561,34 +561,55 @@ func smoke(t *testing.T, r *evid.Run, dir string) {
 		"AWS_EC2_METADATA_DISABLED": "true", "AWS_CONFIG_FILE": "/nonexistent", "AWS_SHARED_CREDENTIALS_FILE": "/nonexistent", "AWS_S3_US_EAST_1_REGIONAL_ENDPOINT": "regional"} {
 		t.Setenv(k, v)
 	}
-	path := filepath.Join(dir, "smoke.db")
-	kdb, err := realdb.Open(path, realdb.DummyKey("smoke"))
-	if err != nil {
-		t.Fatal(err)
-	}
-	kdb.Put(realdb.Super(), "s", []byte("smoke-value"))
-	want, _ := os.ReadFile(path)
-	ctx, cancel := context.WithCancel(context.Background())
-	defer cancel()
-	_, err = server.New(ctx, server.Config{DB: kdb, Mux: http.NewServeMux(), BackupBucket: "bucket", BackupBucketRegion: "us-east-1",
-		WhoIs: nil})
-	if err != nil {
-		r.Count("smoke_skipped", 1)
-		r.Extra("smoke_note", "server.New with a backup bucket could not be configured offline: "+err.Error())
-		return
-	}
-	select {
-	case b := <-got:
-		r.Distinct("smoke through server.New")
-		r.Count("smoke_uploads", 1)
-		if !bytes.Equal(b, want) {
-			// the SDK may use aws-chunked encoding on plain http; accept a body that contains the file
-			if !bytes.Contains(b, want) {
-				r.Violation("smoke-backup-not-exact", -1, "the first upload made by a server created with a backup bucket is not the database file", nil)
-			}
+	// the server as an embedding program creates it, in each of the legal configurations: the database handed
+	// over open (alone; with a DBPath/Key left in the configuration that name an OLDER database under another
+	// key - documented as ignored when DB is set; with a DBPath that names nothing), or opened by the server
+	for ci, kind := range []string{"db-only", "db-and-stale-dbpath", "db-and-dangling-dbpath", "dbpath-only"} {
+		os.MkdirAll(filepath.Join(dir, fmt.Sprintf("smoke%d", ci), "old-state"), 0o700)
+		path := filepath.Join(dir, fmt.Sprintf("smoke%d", ci), "database")
+		oldPath := filepath.Join(dir, fmt.Sprintf("smoke%d", ci), "old-state", "database")
+		key := realdb.DummyKey("smoke")
+		kdb, err := realdb.Open(path, key)
+		if err != nil {
+			t.Fatal(err)
 		}
-	case <-time.After(20 * time.Second):
-		r.Inconclusive("smoke: no upload reached the loopback endpoint within 20 s")
+		kdb.Put(realdb.Super(), "s", []byte("smoke-value"))
+		if odb, err := realdb.Open(oldPath, realdb.DummyKey("smoke-old-key")); err == nil {
+			odb.Put(realdb.Super(), "legacy", []byte("old-value"))
+		}
+		want, _ := os.ReadFile(path)
+		cfg := server.Config{DB: kdb, Mux: http.NewServeMux(), BackupBucket: "bucket", BackupBucketRegion: "us-east-1"}
+		switch kind {
+		case "db-and-stale-dbpath":
+			cfg.DBPath, cfg.Key = oldPath, realdb.DummyKey("smoke-old-key")
+		case "db-and-dangling-dbpath":
+			cfg.DBPath = filepath.Join(dir, fmt.Sprintf("smoke%d", ci), "nothing-here", "database")
+		case "dbpath-only":
+			cfg.DB, cfg.DBPath, cfg.Key, cfg.AuditLog = nil, path, key, audit.New(io.Discard)
+		}
+		for len(got) > 0 {
+			<-got
+		}
+		ctx, cancel := context.WithCancel(context.Background())
+		_, err = server.New(ctx, cfg)
+		if err != nil {
+			cancel()
+			r.Count("smoke_skipped", 1)
+			r.Extra("smoke_note", "server.New with a backup bucket could not be configured offline: "+err.Error())
+			return
+		}
+		select {
+		case b := <-got:
+			r.Distinct("smoke through server.New, " + kind)
+			r.Count("smoke_uploads", 1)
+			// (the SDK may use aws-chunked encoding on plain http; accept a body that contains the file)
+			if !bytes.Equal(b, want) && !bytes.Contains(b, want) {
+				r.Violation("smoke-backup-not-exact", -1, fmt.Sprintf("configuration %s: the start-up upload made by a server created with a backup bucket (%d bytes) is not the file of the database it serves (%d bytes)", kind, len(b), len(want)), nil)
+			}
+		case <-time.After(20 * time.Second):
+			r.Inconclusive("smoke (" + kind + "): no upload reached the loopback endpoint within 20 s")
+		}
+		cancel()
 	}
 }
 
